@@ -39,6 +39,7 @@ inductive WOp where
   | hdr (code : Nat)
   | write (c : Chunk) (enc : Bool)
   | setCL (v : Option Chunk)   -- Header().Set("Content-Length", len of chunk) / Del
+  | info                       -- WriteHeader(1xx other than 101): an informational header, not the response header
 deriving Repr, DecidableEq
 
 /-- what text/template makes of a written body -/
@@ -82,6 +83,9 @@ def Inner.beh : Inner → Beh
   | .panicBefore => ⟨[], .panic⟩
   | .panicAfter s b => ⟨wroteOps s b, .panic⟩
 
+/-- `n` informational headers (103 Early Hints, 102 Processing …) sent before anything else -/
+def pre (n : Nat) (b : Beh) : Beh := ⟨List.replicate n .info ++ b.ops, b.out⟩
+
 /-- what a wrapper that remembers `wroteHeader` lets through: the first WriteHeader only, and
 an explicit WriteHeader(200) before a Write that comes first -/
 def normGo : Bool → List WOp → List WOp
@@ -91,6 +95,7 @@ def normGo : Bool → List WOp → List WOp
   | true, .write c e :: r => .write c e :: normGo true r
   | false, .write c e :: r => .hdr 200 :: .write c e :: normGo true r
   | w, .setCL v :: r => .setCL v :: normGo w r
+  | w, .info :: r => .info :: normGo w r   -- passed on; the response header proper is still to come
 
 def norm (ops : List WOp) : List WOp := normGo false ops
 
@@ -101,11 +106,13 @@ def encOp : WOp → WOp
   | .hdr c => .hdr c
   | .write c _ => .write c true
   | .setCL v => .setCL v
+  | .info => .info
 
 /-- gzipResponseWriter.WriteHeader deletes Content-Length just before the header goes out -/
 def delCL : List WOp → List WOp
   | [] => []
   | .setCL v :: r => .setCL v :: delCL r
+  | .info :: r => .info :: delCL r
   | op :: r => .setCL none :: op :: r
 
 def errResponse (s : Nat) : List WOp := [.hdr s, .write (.errText s) false]
@@ -189,6 +196,7 @@ deriving Repr, DecidableEq
 def runGo : Resp → List WOp → Resp
   | r, [] => r
   | r, .setCL v :: ops => runGo { r with live := v } ops
+  | r, .info :: ops => runGo r ops   -- sent at once, commits nothing
   | r, .hdr c :: ops =>
     runGo { r with commits := r.commits + 1, status := if r.commits = 0 then c else r.status,
                    cl := if r.commits = 0 then r.live else r.cl } ops
@@ -212,6 +220,7 @@ structure Cfg where
   header    : Bool
   errors    : Option ErrMode
   templates : Bool
+  inject    : Bool := true   -- the site was loaded from a Casketfile (InspectServerBlocks ran)
 deriving Repr, DecidableEq
 
 /-- request: has a template/gzip extension (.html), offers gzip, is a HEAD request -/
@@ -222,15 +231,17 @@ structure Req where
 deriving Repr, DecidableEq
 
 /-- httpContext.InspectServerBlocks: a site with `gzip` but without `errors` gets a plain
-`errors` directive added (so error pages are written before the gzip writer is closed) -/
+`errors` directive added (so error pages are written before the gzip writer is closed) — when the
+site is loaded from a Casketfile; a chain assembled through the httpserver API is taken as it is -/
 def effectiveErrors (c : Cfg) : Option ErrMode :=
   match c.errors with
   | some m => some m
-  | none => if c.gzip then some .plain else none
+  | none => if c.gzip && c.inject then some .plain else none
 
 /-- the site's chain in directive order: log, gzip, header, errors, templates, inner -/
-def chain (c : Cfg) (r : Req) (i : Inner) : Beh :=
-  let b1 := if c.templates then templatesW r.html i else i.beh
+def chain (c : Cfg) (r : Req) (n : Nat) (i : Inner) : Beh :=
+  -- the informational headers go out at once through every wrapper (ResponseBuffer included)
+  let b1 := pre n (if c.templates then templatesW r.html i else i.beh)
   let b2 := match effectiveErrors c with
     | some m => errorsW m b1
     | none => b1
@@ -238,7 +249,7 @@ def chain (c : Cfg) (r : Req) (i : Inner) : Beh :=
   let b4 := if c.gzip && r.html && r.ae then gzipW b3 else b3
   if c.log then logW b4 else b4
 
-def serve (c : Cfg) (r : Req) (i : Inner) : Resp := runOps (serverW (chain c r i))
+def serve (c : Cfg) (r : Req) (n : Nat) (i : Inner) : Resp := runOps (serverW (chain c r n i))
 
 /-! ### what net/http puts on the wire (trusted, as documented)
 
@@ -255,7 +266,7 @@ def wire (head : Bool) (r : Resp) : Resp :=
     { r with body := [], cl := if r.status = 204 || r.status = 304 then none else r.cl }
   else r
 
-def serveWire (c : Cfg) (r : Req) (i : Inner) : Resp := wire r.head (serve c r i)
+def serveWire (c : Cfg) (r : Req) (n : Nat) (i : Inner) : Resp := wire r.head (serve c r n i)
 
 /-! ### what outlives a request
 
@@ -267,6 +278,7 @@ into it; `getWriter` / `buf.Reset()` clear it when it is taken, and the deferred
 `BufPool.Put` return it also when the handler below panics (defers run during the unwinding). -/
 
 structure Pooled where
+  id      : Nat          -- which object it is (its address)
   content : List Chunk
 deriving Repr, DecidableEq
 
@@ -274,11 +286,12 @@ structure ServerState where
   gzPool   : List Pooled   -- gzip: writerPool[level]
   tplPool  : List Pooled   -- templates: BufPool
   logLines : Nat           -- entries written to the access log so far
+  nextId   : Nat           -- objects made so far
 deriving Repr, DecidableEq
 
-/-- sync.Pool.Get: a pooled object if there is one, else a new one -/
-def getObj : List Pooled → Pooled × List Pooled
-  | [] => (⟨[]⟩, [])
+/-- sync.Pool.Get: a pooled object if there is one, else a new one (`fresh` = its identity) -/
+def getObj (fresh : Nat) : List Pooled → Pooled × List Pooled
+  | [] => (⟨fresh, []⟩, [])
   | p :: ps => (p, ps)
 
 /-- `buf.Reset()` / `w.Reset(ioutil.Discard)`; `resetOnGet = false` is the hypothetical server
@@ -311,6 +324,7 @@ def gzUses (b : Beh) : Bool := b.ops.any fun o => match o with
   | .hdr _ => true
   | .write _ _ => true
   | .setCL _ => false
+  | .info => false
 
 def gzLeaves (b : Beh) : List Chunk := b.ops.filterMap fun o => match o with
   | .write c _ => some c
@@ -321,33 +335,39 @@ def gzipSt (pre : List Chunk) (b : Beh) : Beh :=
   ⟨leak pre true g.ops, g.out⟩
 
 /-- the deferred Put: the object taken (or made) for this request goes back into its pool -/
-def putBack (used : Bool) (leaves : List Chunk) (pool : List Pooled) : List Pooled :=
-  if used then ⟨leaves⟩ :: (getObj pool).2 else pool
+def putBack (fresh : Nat) (used : Bool) (leaves : List Chunk) (pool : List Pooled) : List Pooled :=
+  if used then ⟨(getObj fresh pool).1.id, leaves⟩ :: (getObj fresh pool).2 else pool
 
 def logAfter (logged : Bool) (n : Nat) : Nat := if logged then n + 1 else n
 
 /-- one request against the server state: the response, and the state it leaves -/
-def serveSt (resetOnGet : Bool) (c : Cfg) (r : Req) (i : Inner) (st : ServerState) : Resp × ServerState :=
-  let tbuf := (getObj st.tplPool).1
-  let b1 := if c.templates then templatesSt (takeClean resetOnGet tbuf) r.html i else i.beh
+def serveSt (resetOnGet : Bool) (c : Cfg) (r : Req) (n : Nat) (i : Inner) (st : ServerState) : Resp × ServerState :=
+  let tbuf := (getObj st.nextId st.tplPool).1
+  let b1 := pre n (if c.templates then templatesSt (takeClean resetOnGet tbuf) r.html i else i.beh)
   let b2 := match effectiveErrors c with
     | some m => errorsW m b1
     | none => b1
   let b3 := if c.header then headerW b2 else b2
   let gz := c.gzip && r.html && r.ae
-  let gw := (getObj st.gzPool).1
+  let gw := (getObj (st.nextId + 1) st.gzPool).1
   let b4 := if gz then gzipSt (takeClean resetOnGet gw) b3 else b3
   let b5 := if c.log then logW b4 else b4
   (runOps (serverW b5),
-   { tplPool := putBack c.templates (tplLeaves r.html i) st.tplPool,
-     gzPool := putBack (gz && gzUses b3) (gzLeaves b3) st.gzPool,
-     logLines := logAfter (c.log && b4.out != .panic) st.logLines })
+   { tplPool := putBack st.nextId c.templates (tplLeaves r.html i) st.tplPool,
+     gzPool := putBack (st.nextId + 1) (gz && gzUses b3) (gzLeaves b3) st.gzPool,
+     logLines := logAfter (c.log && b4.out != .panic) st.logLines,
+     nextId := st.nextId + 2 })
+
+/-- no object is in a pool twice, and none carries an identity not yet handed out -/
+def poolsSound (st : ServerState) : Prop :=
+  (st.gzPool.map (·.id) ++ st.tplPool.map (·.id)).Nodup ∧
+  ∀ p, p ∈ st.gzPool ++ st.tplPool → p.id < st.nextId
 
 /-- a sequence of requests on one server -/
-def serveAll (c : Cfg) : ServerState → List (Req × Inner) → List Resp
+def serveAll (c : Cfg) : ServerState → List (Req × Nat × Inner) → List Resp
   | _, [] => []
-  | st, (r, i) :: rest =>
-    let (resp, st') := serveSt true c r i st
+  | st, (r, n, i) :: rest =>
+    let (resp, st') := serveSt true c r n i st
     resp :: serveAll c st' rest
 
 end Casket.Mw
